@@ -28,6 +28,13 @@ def histories(rng, tier):
                      ("seqfreq", shots, m1, m2), ("seqfreq", shots, m2, m1),
                      ("samplestats", 100000, 60 if tier == "quick" else 400)]
             hs.append((rng.randrange(1 << 30), acts))
+    # "independent of ... the threading model": every admissible worker count (those that do not divide the
+    # buffer included) on 4-5 qubit registers with weight on the highest basis states
+    for k in regcheck.thread_counts():
+        for n in (4, 5):
+            acts = [("raw", n, gen.random_state(rng, n)), ("threads", k), ("dump",), ("probs",),
+                    ("freq", shots // 4, (1 << n) - 1), ("samplestats", 20000, 30 if tier == "quick" else 200)]
+            hs.append((rng.randrange(1 << 30), acts))
     return hs
 
 
